@@ -48,7 +48,7 @@ CLAIMED = {
     "C10": ("exhaustive Eq=>Hash contract check between PartialEq and Hash match arms + routing through std HashMap",
             "Decides completely, given std::collections::HashMap, that every pair of valid-key variants that can compare "
             "equal feeds the hasher identically (frozen compatibility table for primitive pairs, structural inspection of "
-            "the local Array/BuiltinFunction impls and of the canonical-bits helper), and that every map access goes "
+            "the local Array/BuiltinFunction impls — which fields they read and what a container's Hash hands the hasher — and of the canonical-bits helper), and that every map access goes "
             "through HashMap with the key unchanged.",
             "std's Hash/Eq agreement for primitives and String is trusted; " + TRUST,
             "DESIGN.md §3 C10"),
@@ -101,37 +101,40 @@ CLAIMED = {
             "agree, and the file/stdin reader branches are clones. Record order over call histories is not decided.",
             "Order and counts depend on the OS file position and call history; " + TRUST,
             "DESIGN.md §3 C19"),
-    "C20": ("typestate / shape rules over the HIR of run_buf and run_filters + provenance of the output header",
+    "C20": ("typestate rules decided path by path over the normal form of run_filters (helpers, closures and Result combinators read in place) + provenance of the output header",
             "Decides the shape of the filter-mode driver: main program once before the loop, per-packet typestate and "
             "counter, write iff Ok(true) through the output pcap only, -s suppresses the output pcap, PL/WL/TSS/TSU "
             "wiring, end filter once after the loop, output global header = input header. Which packets a program "
             "selects (values) is not decided.",
-            "Shape rules are anchored in today's structure of run_filters and fail closed on a restructuring; " + TRUST,
+            "A restructuring the normal form cannot read fails closed; " + TRUST,
             "DESIGN.md §3 C20"),
-    "C21": ("loop-exit rule for read loops + mode-table agreement with the documentation + who-constructs rule",
+    "C21": ("loop-exit rule for read loops + mode table read per mode value and compared with the documentation + who-constructs rule + unformatted file writes",
             "Decides the structural necessary conditions of chunk-independent reads: no read loop exits on a short read, "
             "unbounded reads go to end of input and copy exactly what was read, the open() mode table equals the "
-            "documented one (extracted from docs/language/builtins.md), and each handle has one buffered reader/writer. "
+            "documented one (extracted from docs/language/builtins.md), each handle has one buffered reader/writer, and "
+            "write() hands a file the bytes it was given (no text formatting on the file path). "
             "Chunk schedules themselves are not decided.",
             "std's BufReader/BufWriter semantics are trusted; flush-at-exit depends on drop order (not decided); " + TRUST,
             "DESIGN.md §3 C21"),
     "C22": ("error-discipline rule: every io::Result in the named builtins must be consumed by an accepted idiom",
             "Decides at every one of the io::Result-producing sites reachable from the 11 named builtins that the error "
             "becomes an error object (not expect/unwrap, not dropped, not a runtime error string), that pcap.rs propagates "
-            "with `?`, that error objects pass through builtin-to-builtin calls, and that none of them prints with "
-            "panicking macros.",
+            "with `?`, that error objects pass through builtin-to-builtin calls, that none of them prints with "
+            "panicking macros, that only reading the next record may end quietly at the end of the input, and (panic-site "
+            "audit over the named builtins, RefCell live ranges included) that no failure path aborts.",
             "The accepted idioms are a frozen list confirmed by reading; " + TRUST,
             "DESIGN.md §3 C22"),
-    "C23": ("path rule on the REPL loop: state carried over a rejection path must be the state that entered the iteration",
-            "Decides the 'rejected lines have no effect' clause structurally: parse rejection continues before any state "
-            "moves; on compile rejection symtab/constants are restored from copies taken before the compiler got them "
-            "and nothing is taken from the failed compiler; runtime errors keep the accepted line. History equivalence "
-            "with a script is not decided.",
-            "Keys on today's design (a transactional compile() would be reported); " + TRUST,
+    "C23": ("value-provenance analysis of the REPL loop over its MIR: per state slot (a local or a field of a state struct), what it holds at the back edge of every rejected and every accepted path",
+            "Decides the 'rejected lines have no effect' clause: at the back edge of every path through a parse or compile "
+            "rejection each state slot holds the value it had when the iteration began (or a copy of it); after an accepted "
+            "line (also one ending in a runtime error) the slots hold the tables of that line's compiler and the store of "
+            "that line's VM, each built from this session's state; the constructor that continues a session stores its "
+            "arguments unchanged. History equivalence with a script is not decided.",
+            "Both the save-and-restore and the hand-out-copies design are accepted; " + TRUST,
             "DESIGN.md §3 C23"),
-    "C24": ("non-interference of the mode flag + argv provenance rules on main.rs / cliargs",
+    "C24": ("provenance and dominating-condition rules on the MIR of main (command-line accessors read in place, stated over the fields of the parsed command line) + non-interference of the mode flag + argv provenance",
             "Decides that script and command mode share one run path, that the mode flag influences only the guarded "
-            "print of the last value, that argv is [script] ++ args in order through to the Argv variable, and that a "
+            "print of the last value (itself only after a successful run and outside filter mode), that argv is [script] ++ args in order through to the Argv variable, and that a "
             "'#' line is a comment at any position. Program outputs are not decided.",
             "clap's argument parsing is trusted; " + TRUST,
             "DESIGN.md §3 C24"),
